@@ -719,9 +719,22 @@ Proof.
   pose proof (on_act_fold_inv v (s_peer s) a (s_addr s) (s_open s) Hl Hp Ha) as H. rewrite F in H. exact H.
 Qed.
 
+Lemma sess_reauth_inv : forall s aaa, sess_inv s -> sess_inv (fst (sess_step repaired s (EvReauth aaa))).
+Proof.
+  intros s aaa (v & Hv & Hl & Hz & (a0 & Ha0 & Hto0) & Hp). cbn [sess_step].
+  set (a := match extract_ip repaired aaa with Some x => x
+            | None => match s_addr s with Some x => x | None => fallback_addr end end).
+  assert (Hu : usable (Some a) = true).
+  { unfold a. destruct (extract_ip repaired aaa) eqn:E; [eapply extract_repaired_usable; eauto|].
+    rewrite Ha0. simpl. rewrite Hto0, Hz. reflexivity. }
+  destruct (usable_spec _ Hu) as (v' & Hv' & Hl' & Hz'). simpl in Hv'.
+  unfold ipcp_set_peer. simpl. exists v'. simpl. rewrite Hv'. repeat split; auto. exists a. auto.
+Qed.
+
 Lemma sess_step_inv : forall s e, sess_inv s -> sess_inv (fst (sess_step repaired s e)).
 Proof.
-  intros s e Hinv. destruct e as [id wire| |w|w|w]; cbn [sess_step];
+  intros s e Hinv. destruct e as [id wire| |w|w|w|aaa]; [| | | | |apply sess_reauth_inv; exact Hinv];
+    cbn [sess_step];
     try (apply sess_fsm_only_inv; [exact Hinv|]; try reflexivity; apply ipcp_learn_assigned).
   pose proof (usable_assigned_of_inv s Hinv) as Hu.
   destruct Hinv as (v & Hv & Hl & Hz & Ha & Hp).
@@ -749,37 +762,177 @@ Proof.
   induction es as [|e es IH]; intros s H; simpl; auto. apply IH. apply sess_step_inv. exact H.
 Qed.
 
-(* no packet of the subscriber changes the assigned address (any variant) *)
-Lemma sess_step_assigned : forall fl s e,
+Definition is_reauth (e : sev) : bool := match e with EvReauth _ => true | _ => false end.
+
+(* no packet of the subscriber changes the assigned address (any variant); only a new AAA answer does *)
+Lemma sess_step_assigned : forall fl s e, is_reauth e = false ->
   ic_assigned (s_cfg (fst (sess_step fl s e))) = ic_assigned (s_cfg s).
 Proof.
-  intros fl s e.
+  intros fl s e He.
   assert (F : forall c' r, ic_assigned c' = ic_assigned (s_cfg s) ->
               ic_assigned (s_cfg (fst (sess_fsm_only fl s c' r))) = ic_assigned (s_cfg s)).
   { intros c' [a st'] Hc. unfold sess_fsm_only. destruct (fold_left _ _ _). simpl. exact Hc. }
-  destruct e as [id wire| |w|w|w]; cbn [sess_step]; try (apply F; try reflexivity; apply ipcp_learn_assigned).
+  destruct e as [id wire| |w|w|w|aaa]; [| | | | |discriminate]; cbn [sess_step];
+    try (apply F; try reflexivity; apply ipcp_learn_assigned).
   unfold ipcp_input. destruct (parse_wire wire); simpl; auto.
   destruct (ipcp_req _ _ _). destruct (rcr_event _ _ _). destruct (fold_left _ _ _). reflexivity.
 Qed.
 
-Lemma sess_run_assigned : forall fl es s, ic_assigned (s_cfg (sess_run fl s es)) = ic_assigned (s_cfg s).
+Lemma sess_run_assigned : forall fl es s, forallb (fun e => negb (is_reauth e)) es = true ->
+  ic_assigned (s_cfg (sess_run fl s es)) = ic_assigned (s_cfg s).
 Proof.
-  intros fl es. induction es as [|e es IH]; intros s; simpl; auto. rewrite IH. apply sess_step_assigned.
+  intros fl es. induction es as [|e es IH]; intros s H; simpl in *; auto.
+  apply andb_true_iff in H. destruct H as [H1 H2]. rewrite IH by exact H2.
+  apply sess_step_assigned. destruct (is_reauth e); [discriminate|reflexivity].
 Qed.
 
 (* the session address, read as an IPv4 address, is the assigned one at every point of every history *)
 Lemma adopted_is_assigned : forall aaa es,
   let s := sess_run repaired (sess_start repaired aaa) es in
   usable (ic_assigned (s_cfg s)) = true /\
-  ic_assigned (s_cfg s) = ic_assigned (s_cfg (sess_start repaired aaa)) /\
-  to4o (s_addr s) = ic_assigned (s_cfg s).
+  to4o (s_addr s) = ic_assigned (s_cfg s) /\
+  (pp_addr (s_peer s) = None \/ pp_addr (s_peer s) = ic_assigned (s_cfg s)).
 Proof.
   intros aaa es s.
   pose proof (sess_run_inv es _ (sess_start_inv aaa)) as H. fold s in H.
-  split; [apply usable_assigned_of_inv; exact H|]. split.
-  - apply sess_run_assigned.
-  - destruct H as (v & Hv & _ & _ & (a & Ha & Hto) & _). rewrite Ha, Hv. simpl. exact Hto.
+  split; [apply usable_assigned_of_inv; exact H|].
+  destruct H as (v & Hv & _ & _ & (a & Ha & Hto) & Hp). rewrite Ha, Hv. simpl. split; [exact Hto|exact Hp].
 Qed.
 
 Lemma startncp_assigned : forall aaa, usable (ic_assigned (s_cfg (sess_start repaired aaa))) = true.
 Proof. intros. apply usable_assigned_of_inv. apply sess_start_inv. Qed.
+
+(* ------------------------------------------------------------------ histories on one object *)
+(* the decision never depends on remembered peer state *)
+Lemma ipcp_req_peer_independent : forall c p p' opts, fst (ipcp_req c p opts) = fst (ipcp_req c p' opts).
+Proof.
+  intros c p p' opts.
+  destruct (ipcp_partition c p opts) as (A & B & C). destruct (ipcp_partition c p' opts) as (A' & B' & C').
+  destruct (fst (ipcp_req c p opts)), (fst (ipcp_req c p' opts)). simpl in *. congruence.
+Qed.
+
+Lemma lcp_req_peer_independent : forall fl m p p' opts, fst (lcp_req fl m p opts) = fst (lcp_req fl m p' opts).
+Proof.
+  intros fl m p p' opts.
+  destruct (lcp_partition fl m p opts) as (A & B & C). destruct (lcp_partition fl m p' opts) as (A' & B' & C').
+  destruct (fst (lcp_req fl m p opts)), (fst (lcp_req fl m p' opts)). simpl in *. congruence.
+Qed.
+
+Lemma iobj_trace_spec : forall fl ops s c os r,
+  In (c, os, r) (iobj_trace fl s ops) -> r = fst (ipcp_req c ipeer0 os).
+Proof.
+  intros fl ops. induction ops as [|o ops IH]; intros s c os r H; simpl in H; [contradiction|].
+  destruct o as [q|q|q|q|a|d1 d2|a]; simpl in H;
+    try (eapply IH; exact H).
+  - destruct (ipcp_req (io_cfg s) (io_peer s) q) as [r0 p'] eqn:R. simpl in H.
+    destruct H as [H|H]; [|eapply IH; exact H].
+    inversion H; subst. rewrite (ipcp_req_peer_independent _ ipeer0 (io_peer s)). rewrite R. reflexivity.
+Qed.
+
+Lemma iobj_run_assigned : forall fl ops s,
+  ic_assigned (io_cfg (iobj_run fl s ops)) = last_set_peer ops (ic_assigned (io_cfg s)).
+Proof.
+  intros fl ops. induction ops as [|o ops IH]; intros s; simpl; [reflexivity|].
+  rewrite IH. destruct o as [q|q|q|q|a|d1 d2|a]; simpl; try reflexivity.
+  - destruct (ipcp_req (io_cfg s) (io_peer s) q). reflexivity.
+  - rewrite ipcp_learn_assigned. reflexivity.
+  - rewrite ipcp_learn_assigned. reflexivity.
+Qed.
+
+(* the configuration recorded in the trace carries the assignment in force at that request *)
+Lemma iobj_trace_assigned : forall fl ops s c os r,
+  In (c, os, r) (iobj_trace fl s ops) ->
+  exists pre post, ops = pre ++ IReq os :: post /\
+                   ic_assigned c = last_set_peer pre (ic_assigned (io_cfg s)).
+Proof.
+  intros fl ops. induction ops as [|o ops IH]; intros s c os r H; simpl in H; [contradiction|].
+  assert (G : forall s', In (c, os, r) (iobj_trace fl s' ops) ->
+              last_set_peer [o] (ic_assigned (io_cfg s)) = ic_assigned (io_cfg s') ->
+              exists pre post, o :: ops = pre ++ IReq os :: post /\
+                               ic_assigned c = last_set_peer pre (ic_assigned (io_cfg s))).
+  { intros s' H' E. destruct (IH _ _ _ _ H') as (pre & post & -> & Hc).
+    exists (o :: pre), post. split; [reflexivity|]. rewrite Hc, <- E. destruct o; reflexivity. }
+  destruct o as [q|q|q|q|a|d1 d2|a]; simpl in H.
+  - destruct (ipcp_req (io_cfg s) (io_peer s) q) as [r0 p'] eqn:R. simpl in H.
+    destruct H as [H|H].
+    + inversion H; subst. exists [], ops. split; reflexivity.
+    + eapply G; [exact H|reflexivity].
+  - eapply G; [exact H|]. simpl. rewrite ipcp_learn_assigned. reflexivity.
+  - eapply G; [exact H|]. simpl. rewrite ipcp_learn_assigned. reflexivity.
+  - eapply G; [exact H|reflexivity].
+  - unfold ipcp_set_peer in H. simpl in H. eapply G; [exact H|reflexivity].
+  - eapply G; [exact H|reflexivity].
+  - eapply G; [exact H|reflexivity].
+Qed.
+
+Lemma lobj_trace_spec : forall fl ops s m os r,
+  In (m, os, r) (lobj_trace fl s ops) -> r = fst (lcp_req fl m lpeer0 os).
+Proof.
+  intros fl ops. induction ops as [|o ops IH]; intros s m os r H; simpl in H; [contradiction|].
+  destruct o as [q|q|q|q|x|x|x y]; simpl in H; try (eapply IH; exact H).
+  destruct (lcp_req fl (lo_magic s) (lo_peer s) q) as [r0 p'] eqn:R. simpl in H.
+  destruct H as [H|H]; [|eapply IH; exact H].
+  inversion H; subst. rewrite (lcp_req_peer_independent _ _ lpeer0 (lo_peer s)). rewrite R. reflexivity.
+Qed.
+
+Lemma v6obj_trace_spec : forall ops s l os r,
+  In (l, os, r) (v6obj_trace s ops) -> exists peer oracle, r = v6_res (ipv6cp_req l peer oracle os).
+Proof.
+  intros ops. induction ops as [|o ops IH]; intros s l os r H; simpl in H; [contradiction|].
+  destruct o as [q orc|q|q|q|x]; simpl in H; try (eapply IH; exact H).
+  destruct H as [H|H]; [|eapply IH; exact H].
+  inversion H; subst. eauto.
+Qed.
+
+Lemma ipcp_history : forall fl s ops c os r,
+  In (c, os, r) (iobj_trace fl s ops) ->
+  r = fst (ipcp_req c ipeer0 os) /\
+  (exists pre post, ops = pre ++ IReq os :: post /\
+                    ic_assigned c = last_set_peer pre (ic_assigned (io_cfg s))) /\
+  (forall v, usable (ic_assigned c) = true -> to4o (ic_assigned c) = Some v ->
+     (forall o, In o (r_ack r) -> In o os) /\
+     (forall o, In o (r_ack r) -> o_type o = 3%N -> o_data o = v) /\
+     (forall o, In o (r_nak r) -> o_type o = 3%N -> o_data o = v) /\
+     (forall o, In o os -> o_type o = 3%N -> length (o_data o) = 4%nat -> o_data o <> v ->
+        In (mkopt 3 v) (r_nak r) /\ is_good r = false /\ ~ In o (r_ack r))).
+Proof.
+  intros fl s ops c os r H.
+  pose proof (iobj_trace_spec _ _ _ _ _ _ H) as Hr.
+  split; [exact Hr|]. split; [eapply iobj_trace_assigned; exact H|].
+  intros v Hu Hv. destruct (ipcp_req c ipeer0 os) as [r0 p0] eqn:R. simpl in Hr. subst r0.
+  exact (ipcp_ack_only_assigned c ipeer0 os r p0 v Hu Hv R).
+Qed.
+
+Lemma lcp_history : forall fl s ops m os r,
+  In (m, os, r) (lobj_trace fl s ops) ->
+  r = fst (lcp_req fl m lpeer0 os) /\
+  (m <> 0%N ->
+   (forall o, In o (r_ack r) -> o_type o = 5%N -> length (o_data o) = 4%nat /\ num32 (o_data o) <> m) /\
+   (forall o, In o os -> o_type o = 5%N -> length (o_data o) = 4%nat -> num32 (o_data o) = m ->
+      In o (r_nak r) /\ ~ In o (r_ack r) /\ is_good r = false)).
+Proof.
+  intros fl s ops m os r H.
+  pose proof (lobj_trace_spec _ _ _ _ _ _ H) as Hr. split; [exact Hr|].
+  intros Hm. destruct (lcp_req fl m lpeer0 os) as [r0 p0] eqn:R. simpl in Hr. subst r0.
+  exact (lcp_no_own_magic fl m lpeer0 os r p0 R Hm).
+Qed.
+
+Lemma lcp_history_auth : forall s ops m os r,
+  In (m, os, r) (lobj_trace repaired s ops) ->
+  forall o, In o (r_ack r) -> o_type o = 3%N ->
+     num16 (o_data o) = proto_pap \/
+     (num16 (o_data o) = proto_chap /\ exists a b, o_data o = [a; b; chap_md5]).
+Proof.
+  intros s ops m os r H.
+  pose proof (lobj_trace_spec _ _ _ _ _ _ H) as Hr.
+  destruct (lcp_req repaired m lpeer0 os) as [r0 p0] eqn:R. simpl in Hr. subst r0.
+  exact (proj1 (lcp_auth_supported_only m lpeer0 os r p0 R)).
+Qed.
+
+Lemma ipv6cp_history : forall s ops l os r,
+  In (l, os, r) (v6obj_trace s ops) -> forall o, In o (r_ack r) -> v6_ok l os o.
+Proof.
+  intros s ops l os r H o Ho.
+  destruct (v6obj_trace_spec _ _ _ _ _ H) as (peer & oracle & ->).
+  eapply ipv6cp_iid; exact Ho.
+Qed.
